@@ -102,7 +102,7 @@ SPEC = {
         "float_round_nearest_even", "int_to_float_nearest_even", "float_to_float_nearest_even", "float_widen_exact",
         "float_to_int_trunc_saturate", "float_narrowing_is_c10_narrow32", "position_rules_as_reviewed", "position_count_agrees", "position_count_complete",
         "position_count_rejections", "case_label_value", "const_initialiser_value", "template_argument_value",
-        "template_argument_not_converted", "lod_property_value_partial", "lod_property_refuses_valid_values",
+        "template_argument_not_converted", "lod_property_value", "lod_property_complete", "lod_property_rejections",
         "enum_values_c_semantics", "enum_rejected_only_out_of_range", "enum_overflow_only_at_type_max", "enum_no_panic"]],
     "harness": "c13",
     "nontrivial": nontrivial,
